@@ -80,13 +80,13 @@ package ocidir
 //@   trusted ghost bookkeeping only
 //@   effect $indexWritten = (err == nil)
 //@ callsite (*OCIDir).updateIndex(r, d, child, locked)
-//@   prop C04
+//@   prop C04, C07
 //@   name updateIndex/manifestPut
 //@   in ~/scheme/ocidir
 //@   infunc \)\.manifestPut$
 //@   requires manifest-file-in-place-first: $renamed
 //@ callsite os.Remove(name)
-//@   prop C04
+//@   prop C04, C07
 //@   name os.Remove/ManifestDelete
 //@   in ~/scheme/ocidir
 //@   infunc \)\.ManifestDelete$
@@ -94,7 +94,7 @@ package ocidir
 
 // ---- C05 (OCI layout): a blob is renamed under its digest name only after verification ----
 //@ callsite os.Rename(oldpath, newpath)
-//@   prop C05
+//@   prop C05, C07
 //@   name os.Rename/BlobPut
 //@   in ~/scheme/ocidir
 //@   infunc \)\.BlobPut$
@@ -145,7 +145,7 @@ package ocidir
 // Sweep: a file is removed only if its digest was not marked, the layout was modified by this
 // client, and no copy holds a GC lock on it; all under the layout mutex.
 //@ callsite os.Remove(name)
-//@   prop C08
+//@   prop C08, C07
 //@   name os.Remove/Close
 //@   in ~/scheme/ocidir
 //@   infunc \)\.Close$
